@@ -15,11 +15,13 @@ import (
 	"hash/fnv"
 	"math"
 	"strings"
+	"sync/atomic"
 	"time"
 
 	gpb "github.com/openconfig/gnmi/proto/gnmi"
 	fgnmi "github.com/openconfig/gnmi/testing/fake/gnmi"
 	fpb "github.com/openconfig/gnmi/testing/fake/proto"
+	fqueue "github.com/openconfig/gnmi/testing/fake/queue"
 	"github.com/openconfig/gnmi/zzverif/harness/common"
 	"github.com/openconfig/gnmi/zzverif/simgrpc"
 	"github.com/openconfig/gnmi/zzverif/simrt"
@@ -67,9 +69,17 @@ type Scenario struct {
 	// poll trigger), engine 0 right after the trigger, i.e. while the engine
 	// rebuilds its generator: that pass must play the old or the new
 	// configuration - entirely.
-	RaceSeed  int64       `json:"race_seed,omitempty"`
-	Fixed     []FixedResp `json:"fixed,omitempty"`
-	SharedCfg bool        `json:"shared_cfg,omitempty"`
+	RaceSeed int64 `json:"race_seed,omitempty"`
+	// LateAdd (queue level): the generator (queue.New with delays) is consumed by
+	// one task while another task adds one more value - timestamp LateTS, repeat
+	// LateRepeat - after LateAtNs of virtual time, i.e. possibly while Next is
+	// sleeping out an inter-update delay.
+	LateAdd    bool        `json:"late_add,omitempty"`
+	LateAtNs   int64       `json:"late_at_ns,omitempty"`
+	LateTS     int64       `json:"late_ts,omitempty"`
+	LateRepeat int32       `json:"late_repeat,omitempty"`
+	Fixed      []FixedResp `json:"fixed,omitempty"`
+	SharedCfg  bool        `json:"shared_cfg,omitempty"`
 }
 
 // FixedResp is one response of a fixed-responses configuration.
@@ -134,6 +144,13 @@ func (H) Generate(rng *simrt.Rand, prop, tier string) (any, simrt.Config) {
 			v.TS += shift
 			sc.Values2 = append(sc.Values2, v)
 		}
+	}
+	if !unbounded && len(sc.Values2) == 0 && rng.Chance(0.1) {
+		sc.LateAdd, sc.Delay = true, true
+		sc.LateAtNs = int64(rng.Intn(60))
+		sc.LateTS = int64(rng.Intn(60))
+		sc.LateRepeat = int32(1 + rng.Intn(3))
+		return sc, cfg
 	}
 	if sc.Mode == "poll" && sc.Polls > 0 && !unbounded && len(sc.Values2) == 0 && rng.Chance(0.5) {
 		sc.RaceSeed = sc.Seed + 1 + int64(rng.Intn(1000))
@@ -400,6 +417,10 @@ func (H) Execute(x *common.Exec, s any) {
 	// under its feet, as it can in a real process
 	simsync.YieldAfterUnlock = true
 	defer func() { simsync.YieldAfterUnlock = false }()
+	if sc.LateAdd {
+		execLateAdd(x, sc)
+		return
+	}
 	simgrpc.SetHooks(&simgrpc.Hooks{Window: sc.Window})
 	var sts [engines]*simgrpc.Stream
 	var runErr [engines]error
@@ -868,3 +889,80 @@ type engineSrv struct {
 func (e *engineSrv) Subscribe(s gpb.GNMI_SubscribeServer) error { return e.run(s) }
 
 var _ = grpc.ErrServerStopped
+
+// execLateAdd: the generator at queue level. One task consumes queue.New(delay
+// on) with Next until it is exhausted (and the adder is done); another adds one
+// value after LateAtNs. Every value - configured or added - must come out
+// exactly as many times as its repeat count says.
+func execLateAdd(x *common.Exec, sc *Scenario) {
+	cfg := build(sc)
+	q := fqueue.New(true, sc.Seed, cfg.Values)
+	type em struct {
+		path string
+		ts   int64
+	}
+	var out []em
+	var adderDone atomic.Bool
+	var nextErr error
+	x.R.Go("consumer", func() {
+		for i := 0; i < 10000; i++ {
+			done := adderDone.Load() // read before Next: an empty queue is final only if the add had completed by then
+			v, err := q.Next()
+			if err != nil {
+				nextErr = err
+				return
+			}
+			if v == nil {
+				if done {
+					return
+				}
+				simrt.Sleep(time.Nanosecond)
+				continue
+			}
+			fv := v.(*fpb.Value)
+			out = append(out, em{strings.Join(fv.Path, "/"), fv.GetTimestamp().GetTimestamp()})
+		}
+	})
+	x.R.Go("adder", func() {
+		if sc.LateAtNs > 0 {
+			simrt.Sleep(time.Duration(sc.LateAtNs))
+		}
+		q.Add(&fpb.Value{Path: []string{"late"}, Repeat: sc.LateRepeat, Timestamp: &fpb.Timestamp{Timestamp: sc.LateTS},
+			Value: &fpb.Value_IntValue{IntValue: &fpb.IntValue{Value: 1}}})
+		adderDone.Store(true)
+	})
+	o := x.R.Schedule(false, nil)
+	x.R.AcquireEnd()
+	if o == simrt.StepLimit {
+		x.Inconclusive = "step-limit"
+		return
+	}
+	x.Fault("value-added-while-the-generator-is-consumed")
+	x.NonTrivial = len(out) >= 2
+	if o != simrt.AllDone {
+		x.Violate("C20/deadlock", "consumer / adder of the generator did not finish: %s", x.R.Summary())
+		return
+	}
+	if nextErr != nil {
+		x.Violate("C20/next-error", "Next returned %v", nextErr)
+		return
+	}
+	count := map[string]int{}
+	var sb strings.Builder
+	for i, e := range out {
+		count[e.path]++
+		fmt.Fprintf(&sb, "  #%d %s ts=%d\n", i, e.path, e.ts)
+	}
+	x.Oblige(1 + len(sc.Values))
+	if count["late"] != int(sc.LateRepeat) {
+		x.Violate("C20/repeat-count", "the value added while the generator was running (timestamp %d, repeat %d, added after %dns) was emitted %d time(s)\n%s", sc.LateTS, sc.LateRepeat, sc.LateAtNs, count["late"], sb.String())
+		return
+	}
+	for i, v := range sc.Values {
+		p := fmt.Sprintf("v/%d", i)
+		if count[p] != int(v.Repeat) {
+			x.Violate("C20/repeat-count", "%s emitted %d time(s), configured repeat %d (a value was added while the generator was running)\n%s", p, count[p], v.Repeat, sb.String())
+			return
+		}
+	}
+}
